@@ -79,6 +79,8 @@ func c18(r *core.Run) {
 	r.Rule("V8", "an error response decodes to the error the handler supplied (shared with C05.E3): the Error(err) method of a request type answers with ToError(err) through the error funnel on every path; it does not pick a predefined static reply by testing the error (errors.Is, its code), which would drop the handler's message and data", 2)
 	r.Rule("V9", "a result response is what the encoder wrote (shared with C07.P8): every payload handed to a reply funnel is a package-level literal or the output of json.Marshal - a response spliced together from raw bytes the handler supplied (a nil or invalid json.RawMessage) is not JSON, and the client classifies it as an error instead of the result the handler gave", 4)
 	c07PayloadProvenance(r, "V9", replyFunnels(r.P), r.P.FuncsOfPkg(""))
+	r.Rule("V11", "what is published is what was encoded (shared with C07.P10): no function appends onto a truncated prefix of a slice it was handed - a trace helper shortening a large payload that way replaces bytes in the middle of the response the client is about to parse", 1)
+	c07NoAppendIntoForeignPrefix(r, "V11", []string{"", "resprot"})
 	r.Rule("V10", "classification depends on the text only: every json.Unmarshal of the store's value parser decodes into a zero value made for that call or into the receiver's own members; a pooled or package-level scratch object keeps the members of an earlier parse that the current text does not mention (encoding/json merges), and a reference is classified as a soft reference, a data value as invalid", 1)
 	r.Rule("V7", "equality looks at what the parser set: for every value class, the members of a store Value that Equal reads in that class's arm are members the value parser assigns on every path that ends in that class (the parser does not reset the others, so in a Value that is decoded into again they hold what an earlier text left behind); otherwise Equal answers from stale bytes - equal values differ, different values compare equal", 4)
 	r.Rule("V3", "decoders own their bytes: no UnmarshalJSON method of the library keeps (a slice or byte-slice conversion of) its input parameter in the receiver - the json.Unmarshaler contract lets the caller reuse the buffer, after which a retained alias changes the value's JSON and its equality", 3)
@@ -767,12 +769,18 @@ func typeFType(p *core.Prog, f core.Field) types.Type {
 // new(T)) or into the receiver's own members - not into an object that
 // outlives the call (a pooled scratch object, a package-level variable).
 func c18ParserDecodesIntoFreshObject(r *core.Run, rule string) {
-	p := r.P
-	um := methodNamed(p, "store", "Value", "UnmarshalJSON")
+	um := methodNamed(r.P, "store", "Value", "UnmarshalJSON")
 	if um == nil {
 		r.Unres(rule, "store.Value.UnmarshalJSON", "missing")
 		return
 	}
+	freshDecodeRule(r, rule, um, "the value parser", true)
+}
+
+// freshDecodeRule: every json.Unmarshal in um's unit decodes into a zero value
+// made for this call or a member of the receiver (see above).
+func freshDecodeRule(r *core.Run, rule string, um *ssa.Function, who string, allowRecv bool) {
+	p := r.P
 	n := 0
 	for _, c := range helperCalls(p, um) {
 		if core.CalleeName(c) != "encoding/json.Unmarshal" || len(c.Common().Args) != 2 {
@@ -790,7 +798,7 @@ func c18ParserDecodesIntoFreshObject(r *core.Run, rule string) {
 			case *ssa.Alloc:
 				continue // a local variable or new(T): zero at allocation, one per call
 			case *ssa.FieldAddr:
-				if derivesFromRecv(x.X, 0) {
+				if allowRecv && derivesFromRecv(x.X, 0) {
 					continue // a member of the value being parsed
 				}
 				if _, isAl := core.Strip(x.X).(*ssa.Alloc); isAl {
@@ -803,7 +811,7 @@ func c18ParserDecodesIntoFreshObject(r *core.Run, rule string) {
 						switch y := core.Strip(a).(type) {
 						case *ssa.Alloc:
 						case *ssa.FieldAddr:
-							if !derivesFromRecv(y.X, 0) {
+							if !allowRecv || !derivesFromRecv(y.X, 0) {
 								fresh = false
 							}
 						default:
@@ -817,9 +825,9 @@ func c18ParserDecodesIntoFreshObject(r *core.Run, rule string) {
 			}
 			why = valDesc(src.V)
 		}
-		r.Check(why == "", rule, core.FuncName(c.Parent()), fmt.Sprintf("json.Unmarshal#%d-into-a-fresh-object", n), p.InstrPos(c), "decodes into a zero value made for this call (or the receiver's own member)", "the value parser decodes into "+why+", an object that is not made for this call: encoding/json leaves members that are absent from the text as they were, so what an earlier (failed or partial) parse left behind decides how the next JSON text is classified")
+		r.Check(why == "", rule, core.FuncName(c.Parent()), fmt.Sprintf("json.Unmarshal#%d-into-a-fresh-object", n), p.InstrPos(c), "decodes into a zero value made for this call (or the receiver's own member)", who+" decodes into "+why+", an object that is not made for this call: encoding/json leaves members that are absent from the text as they were, so what an earlier (failed or partial) parse left behind decides how the next JSON text is classified")
 	}
 	if n == 0 {
-		r.Bad(rule, core.FuncName(um), "json.Unmarshal-into-a-fresh-object", p.Pos(um.Pos()), "the value parser calls json.Unmarshal nowhere (rule went vacuous)")
+		r.Bad(rule, core.FuncName(um), "json.Unmarshal-into-a-fresh-object", p.Pos(um.Pos()), who+" calls json.Unmarshal nowhere (rule went vacuous)")
 	}
 }
